@@ -759,7 +759,7 @@ impl Prop for C07 {
         ]
     }
     fn run_shard(&self, ctx: &mut Ctx<'_>) {
-        let n = ctx.budget(100_000, 2_500_000);
+        let n = ctx.budget(100_000, 25_000_000);
         let encs = gen::ascii_compatible_encodings();
         for i in 0..n {
             if i % 32 == 0 && ctx.should_stop() {
